@@ -15,15 +15,15 @@ import (
 )
 
 func init() {
-	reg(&core.RuleInfo{Name: "VAL-DOM", Props: []string{"C11"}, Engine: "INT", Floor: 9, Confirmed: 11,
+	reg(&core.RuleInfo{Name: "VAL-DOM", Props: []string{"C11", "C12"}, Engine: "INT", Floor: 9, Confirmed: 11,
 		Doc: "integer/rune domains of the field validators equal the statement's", Run: runValDom})
-	reg(&core.RuleInfo{Name: "NADDR-SPLIT", Props: []string{"C11"}, Engine: "TAB", Floor: 1, Confirmed: 1,
+	reg(&core.RuleInfo{Name: "NADDR-SPLIT", Props: []string{"C11", "C12"}, Engine: "TAB", Floor: 1, Confirmed: 1,
 		Doc: "address split keeps ':' inside d", Run: runNaddrSplit})
 	reg(&core.RuleInfo{Name: "DISPATCH-WS", Props: []string{"C11", "C12"}, Engine: "TAB", Floor: 1, Confirmed: 1,
 		Doc: "dispatch pattern admits insignificant whitespace around '['", Run: runDispatchWS})
-	reg(&core.RuleInfo{Name: "VAL-EXH", Props: []string{"C11"}, Engine: "TAB", Floor: 10, Confirmed: 15,
+	reg(&core.RuleInfo{Name: "VAL-EXH", Props: []string{"C11", "C12"}, Engine: "TAB", Floor: 10, Confirmed: 15,
 		Doc: "ValidClientMsg/ParseClientMsg have one clause per client message type", Run: runValExh})
-	reg(&core.RuleInfo{Name: "VAL-SLICE", Props: []string{"C11"}, Engine: "CFG", Floor: 12, Confirmed: 20,
+	reg(&core.RuleInfo{Name: "VAL-SLICE", Props: []string{"C11", "C12"}, Engine: "CFG", Floor: 12, Confirmed: 20,
 		Doc: "each Valid() result depends on the validator of every field", Run: runValSlice})
 }
 
